@@ -237,7 +237,7 @@ func (s *session) handle(c fiber.Ctx) error {
 	s.ctxPtr = append(s.ctxPtr, ptrOf(c))
 	s.checkRetained(t, "handler-entry")
 	cur := s.capture(c, t, true)
-	s.digests = append(s.digests, encodeDigest(cur))
+	s.digests = append(s.digests, s.encodeDigest(cur, alphabet[s.hist[t]]))
 	s.ncapt += len(cur)
 	s.readOnly(c, t)
 	s.checkCur(cur, t, "read-accessors")
@@ -340,10 +340,6 @@ func (s *session) account() {
 		}
 		got, ref := decodeDigest(d), decodeDigest(s.solo[s.hist[t]])
 		for _, id := range diffIDs(got, ref) {
-			if lt.unspecified(id) {
-				l.Add("unspecified_skipped", 1)
-				continue
-			}
 			acc := id[:strings.IndexByte(id, '|')]
 			s.violate(fmt.Sprintf("value-depends-on-history accessor=%s immutable=%v", sigAcc(acc), s.cfg.Immutable), func() (string, map[string]any, any, any) {
 				cs := s.caseOf()
@@ -379,15 +375,16 @@ func (l *letter) unspecified(id string) bool {
 	return false
 }
 
-func encodeDigest(cur []*entry) []byte {
+func (s *session) encodeDigest(cur []*entry, lt *letter) []byte {
 	n := 0
 	for _, e := range cur {
 		n += len(e.Acc) + len(e.Key) + len(e.cp) + 8
 	}
 	b := make([]byte, 0, n)
 	for _, e := range cur {
-		if e.Acc == "String" {
-			continue // prints the connection's request counter: position dependent by design
+		if lt.unspecified(e.id()) {
+			s.l.Add("unspecified_skipped", 1) // String() prints a request counter; part order of a multipart Body()
+			continue
 		}
 		b = binary.AppendUvarint(b, uint64(len(e.Acc)+1+len(e.Key)))
 		b = append(b, e.Acc...)
@@ -487,10 +484,6 @@ func baselineOracle(l *core.Local) {
 					if !in1 || !in2 {
 						continue // the Req() twins are not exercised with the custom context
 					}
-					if lt.unspecified(id) {
-						l.Add("unspecified_skipped", 1)
-						continue
-					}
 					acc := id[:strings.IndexByte(id, '|')]
 					l.Violate(fmt.Sprintf("value-differs-across-config accessor=%s between=%s", sigAcc(acc), what), "the same request yields different values under two configurations that must not affect it",
 						map[string]any{"configs": []string{cf.String(), of.String()}, "letter": lt.Name, "value": id, "ord": -1}, clip(solos[oi][li][id]), clip(solos[ci][li][id]))
@@ -513,12 +506,12 @@ type item struct {
 
 // forEachHistory enumerates, in a fixed order, every history of 1..maxFurther further requests:
 // config x first letter x sequence of further letters x number of requests on the first connection.
-func forEachHistory(maxFurther int, want func(ci int, pos int64) bool, fn func(idx int64, it item)) int64 {
+func forEachHistory(bound func(ci int) int, want func(ci int, pos int64) bool, fn func(idx int64, it item)) int64 {
 	var idx int64
 	n := len(alphabet)
 	for ci := range configs {
 		var pos int64
-		for k := 1; k <= maxFurther; k++ {
+		for k := 1; k <= bound(ci); k++ {
 			total := 1
 			for i := 0; i <= k; i++ {
 				total *= n
@@ -555,19 +548,29 @@ func owner(ci int, pos int64, nw int) int {
 	return (ci*m + int(pos%int64(m))) % nw
 }
 
-// maxFurther: bound on the further requests of a history. The SendFile pass is one request
-// shallower: fasthttp's file handler initialises package mime (12k live objects from
-// /etc/mime.types), which makes the two GCs per history four times dearer, and SendFile only
-// matters to oracle 2, which looks at one handler at a time.
-func maxFurther(r *core.Run, sendfile bool) int {
-	k := 3
-	if r.Quick() {
-		k = 2
+// maxFurther: bound on the further requests of a history, per configuration.
+//
+//	thorough: 3 everywhere; quick: 2 with the plain option set, 1 with the rich one (UnescapePath,
+//	EnableSplittingOnParsers, EnableIPValidation, strict + case-sensitive routing, TrustProxy).
+//
+// The SendFile pass is one request shallower (never below 1): fasthttp's file handler
+// initialises package mime (12k live objects from /etc/mime.types), which makes the two GCs
+// per history four times dearer, and SendFile only matters to oracle 2, which looks at one
+// handler at a time.
+func maxFurther(r *core.Run, sendfile bool) func(ci int) int {
+	return func(ci int) int {
+		k := 3
+		if r.Quick() {
+			k = 2
+			if configs[ci].Opts == "rich" {
+				k = 1
+			}
+		}
+		if sendfile && k > 1 {
+			k--
+		}
+		return k
 	}
-	if sendfile {
-		k--
-	}
-	return k
 }
 
 func runWorker(r *core.Run) {
@@ -633,7 +636,7 @@ func spawn(r *core.Run, n int, extra ...string) {
 			defer wg.Done()
 			out := filepath.Join(dir, fmt.Sprintf("part%d.json", i))
 			_ = os.Remove(out)
-			args := []string{"-tier", r.Tier, "-worker", strconv.Itoa(i), "-nworkers", strconv.Itoa(n), "-out", out, "-budget", time.Until(r.Deadline).String()}
+			args := []string{"-tier", r.Tier, "-worker", strconv.Itoa(i), "-nworkers", strconv.Itoa(n), "-out", out, "-budget", max(time.Until(r.Deadline), time.Second).String()}
 			args = append(args, extra...)
 			cmd := exec.Command(os.Args[0], args...)
 			cmd.Env = append(os.Environ(), "GOMAXPROCS=1")
@@ -781,8 +784,8 @@ func main() {
 	if nw > 32 {
 		nw = 32
 	}
+	spawn(r, nw, "-sendfile") // the small pass first: the budget is then spent on the deep one
 	spawn(r, nw)
-	spawn(r, nw, "-sendfile")
 	c := r.P.Counters
 	total := forEachHistory(maxFurther(r, false), func(int, int64) bool { return false }, nil) +
 		forEachHistory(maxFurther(r, true), func(int, int64) bool { return false }, nil)
@@ -814,7 +817,8 @@ func main() {
 			"transitions":                   c["transitions"] + c["connection_close_transitions"],
 			"traces_validated_against_impl": c["traces"],
 			"state_definition":              "state = (configuration, requests served so far, which of them went over the first connection); one transition per request served and per connection closed; every state is the end of exactly one enumerated history, so states are counted once, at the end of the history that reaches them (plus the one-request states of the solo baseline)",
-			"bounds": map[string]any{"alphabet": names, "max_further_requests": maxFurther(r, false), "max_further_requests_sendfile_pass": maxFurther(r, true), "configurations": cfgs,
+			"bounds": map[string]any{"alphabet": names, "max_further_requests": map[string]int{"plain option set": maxFurther(r, false)(0), "rich option set": maxFurther(r, false)(4)},
+				"max_further_requests_sendfile_pass": map[string]int{"plain option set": maxFurther(r, true)(0), "rich option set": maxFurther(r, true)(4)}, "configurations": cfgs,
 				"placements": "first k requests pipelined on one keep-alive connection, the others on a second connection, every k", "workers": nw},
 		},
 		Assumptions: []string{
